@@ -30,6 +30,12 @@ pub enum MSt {
 
 const STATES: [MSt; 4] = [MSt::S0, MSt::S1, MSt::S2, MSt::S3];
 
+/// Used by corpus entries whose default values are written as a function call.
+#[allow(dead_code)]
+fn make_vals(a: f32, b: f32, n: i32, k: u8) -> MVals {
+    MVals { a, b, n, k }
+}
+
 type BoxedAnimator = Box<dyn StateAnimator<State = MSt, Values = MVals>>;
 
 include!(concat!(env!("OUT_DIR"), "/corpus.rs"));
